@@ -9,6 +9,8 @@ def _r(test, q, t, qs=4, ts=16, race=False, qt=900, tt=3000, **kw):
     return d
 
 
+from checks_agents import AGENT_CHECKS  # noqa: E402
+
 NOT_APPLICABLE = {}
 HOOK_COMMITS = []
 
@@ -27,4 +29,33 @@ CHECKS = {
         "assumptions": ["reference semantics R-sem (harness/refsem) is the specification; validated against the repository's YAML matrix by TestRefsemSelfTest",
                         "memory datastore, default engine, caches off"],
     },
+    "C02": {
+        "runs": [_r("TestC02", 800, 60000, qt=1500, tt=5000)],
+        "rule": "rapid draws a world (generator G), 2-5 Check requests, 1-2 ListObjects requests and 2-4 configurations: deterministic "
+                "planner policy (always default / prefer weight2 / prefer recursive / per-key bits / alternate), breadth limit {1,2,3,10,100}, "
+                "read concurrency {1,2,1000}, dispatch throttling (threshold 1-5, 1us-1ms), datastore throttling, ListObjects engine "
+                "{classic, weighted, pipeline} with chunk {1,2,100}, buffer {1,2,3,4,128}, numProcs {1,2,4}; each request runs under the baseline "
+                "and every configuration at the commands layer (where the planner is an interface), twice, and for one configuration from 8 goroutines. "
+                "Oracle: every configuration's answer satisfies the reference semantics, repeats/bursts give the same answer, any two configurations that "
+                "return a decision return the same one, ListObjects sets are equal. Non-trivial: a planner Select offered >= 2 strategies and a non-default "
+                "one was chosen and ran to completion. Distinct: hash of the case.",
+        "level_text": "exploration of strategy assignments and tuning knobs by generated configurations; schedules are sampled (real goroutines), not enumerated",
+        "technique": "property-based testing (rapid), differential across configurations with a deterministic injected planner + reference semantics",
+        "assumptions": ["strategy forcing happens at the commands/graph layer (Server only accepts the concrete planner)",
+                        "an error caused by an unevaluable condition is not counted as a different answer (see DESIGN.md C01/C02)"],
+    },
+    "C05": {
+        "runs": [_r("TestC05", 3000, 160000)],
+        "rule": "rapid draws a world (generator G) and 2-6 ListObjects calls: engine in {classic reverse expansion, its weighted-graph "
+                "variant, streaming pipeline}, unary or streamed, result limit in {1,2,3,default}, sometimes a 1 ms deadline "
+                "(soundness only), object/wildcard/userset subjects, contexts, contextual tuples. Oracle: returned objects are "
+                "distinct and hold the relation under R-sem (True, never merely Unknown); without limit/deadline and with every "
+                "condition evaluable the response equals the reference set; with a limit k the response has min(k,|truth|) objects. "
+                "Non-trivial: |truth| >= 2 and truth is a strict subset of the candidates (or the limit cuts it). Distinct: hash of the case.",
+        "level_text": "exploration: generated worlds and calls over all three ListObjects engines compared with the reference set; no proof of absence",
+        "technique": "property-based testing (rapid), differential against reference semantics R-sem, three engines on one store",
+        "assumptions": ["R-sem is the specification", "memory datastore; caches off", "streamed API ignores the result limit (documented)"],
+    },
 }
+
+CHECKS.update(AGENT_CHECKS)
